@@ -21,11 +21,13 @@ service:
     - {context: ./dir, entitlements: [network.host, security.insecure]}
     - {context: ., args: {foo: bar, EMPTY: "", NUM: 3}}
     - {context: ., args: [A=b, NOVALUE]}
+    - {context: ., args: ["EMPTYARG=", "FROM_ENV="]}
     - {context: ., ssh: [default]}
     - {context: ., ssh: ["default", "key1=./keys/id_rsa"]}
     - {context: ., ssh: {default: null}}
     - {context: ., ssh: {mykey: ./keys/id_rsa}}
     - {context: ., ssh: {agentkey: null}}
+    - {context: ., ssh: {default: null, k2: /abs/key2, k1: ./keys/id_rsa, agent3: null}}
     - {context: ., labels: {l1: v1, l2: ""}}
     - {context: ., labels: [FOO=BAR]}
     - {context: ., cache_from: [foo, bar], cache_to: ["type=local,dest=./cache"]}
@@ -129,6 +131,7 @@ service:
     - {BAZ: baz, QUX: null, EMPTY: "", NUM: 42, BOOL: "true"}
     - [A=b, FROM_ENV, EQ=a=b, "SP=a b"]
     - {DOLLAR: "a$$b"}
+    - ["EMPTYVAL=", "FROM_ENV=", "PLAIN=x"]
   env_file:
     - ./a.env
     - [./a.env, ./b.env]
